@@ -5,6 +5,6 @@ CONSTANTS
   InitBal = "0"
   MaxLen = 0
   Scenarios = {}
-  Defects = {"hook_no_checks"}
+  Defects = {"hook_no_checks", "unescrow_receiver_only", "wrapper_false_is_success"}
 INVARIANT Report
 CHECK_DEADLOCK FALSE
